@@ -10,7 +10,7 @@ import pandas as pd
 from . import docs
 
 L = 377580
-VARIANTS = ["America/Chicago", "Asia/Kolkata", "Europe/London", "America/Phoenix"]
+VARIANTS = ["America/Chicago", "Asia/Kolkata", "Europe/London", "America/Phoenix", "America/Chicago|split", "Asia/Kolkata|split"]
 _em = {}
 _models = {}
 
@@ -21,9 +21,17 @@ def init():
 
 
 def _model(tz):
+    """`<zone>|split`: a billing model with one sub-model per season, each with its own integer coefficients and uncertainty (a
+    bi-monthly period that straddles a season boundary then mixes days of two sub-models)"""
     if tz not in _models:
-        co = docs.coeffs("hdd_tidd_cdd", 10, 50, 1, None, 60, 2, None)
-        _models[tz] = docs.load(docs.document({"fw-su_sh_wi": docs.submodel(co, f_unc=3.0)}, tz=tz, profile="legacy", billing=True), billing=True)
+        zone, _, split = tz.partition("|")
+        if split:
+            subs = {"fw-su": docs.submodel(docs.coeffs("hdd_tidd_cdd", 10, 50, 1, None, 60, 2, None), f_unc=3.0),
+                    "fw-sh": docs.submodel(docs.coeffs("hdd_tidd_cdd", 20, 45, 2, None, 65, 1, None), f_unc=4.0),
+                    "fw-wi": docs.submodel(docs.coeffs("hdd_tidd_cdd", 30, 55, 3, None, 70, 4, None), f_unc=5.0)}
+        else:
+            subs = {"fw-su_sh_wi": docs.submodel(docs.coeffs("hdd_tidd_cdd", 10, 50, 1, None, 60, 2, None), f_unc=3.0)}
+        _models[tz] = docs.load(docs.document(subs, tz=zone, profile="legacy", billing=True), billing=True)
     return _models[tz]
 
 
@@ -37,6 +45,8 @@ def _iv(x):
 
 def realise(lay, tz):
     em = _em["em"]
+    mkey = tz
+    tz = tz.partition("|")[0]
     y, m, d = lay["start"]
     n = lay["n"]
     idx = pd.date_range(pd.Timestamp(year=y, month=m, day=d, tz=tz), periods=n, freq="D")
@@ -54,7 +64,7 @@ def realise(lay, tz):
     if lay["obs"] != "absent":
         cols["observed"] = obs
     frame = pd.DataFrame(cols, index=idx)
-    model = _model(tz)
+    model = _model(mkey)
     agg = lay["agg"]
     cin = {"agg": agg, "hasObs": False, "obsExact": True, "days": []}
     out = {"res": "ok", "same": True, "hasObs": False, "rows": []}
